@@ -118,6 +118,11 @@ def synthetic(data_by_name):
         line_start = base.rfind(b'\n', 0, pos) + 1
         block = base[line_start:]
         out['synthetic_two_editions.res'] = base + b'\n' + block
+        # partial edition (job stopped by a signal) after which the job went
+        # on: time lines, the next batch, the time once more
+        out['synthetic_partial_goes_on.res'] = base + (
+            b'\n\n simulation time (s) : 12\n\n batch number : 39\n\n'
+            b' simulation time (s) : 13\n\n elapsed time (s) : 14\n')
     small = data_by_name.get('ttsSimplePacket20.d.PARA.res.ceav5')
     if small:
         out['synthetic_para_twice.res'] = small + b'\n' + small[
